@@ -1390,6 +1390,9 @@ def run_geo_indices(ck, c):
         rda = UX.UxDataArray(np.arange(ref.n_face, dtype=float) * 2 + 1, dims=["n_face"], uxgrid=ref, name="w")
         want_dat = [float(x) for x in rda.to_polycollection(periodic_elements=per).get_array()]
         pc, idx = g.to_polycollection(periodic_elements=per, return_indices=True)
+        if c.get("call_no", 1) == 2:
+            # the table handed out on a cache hit
+            pc, idx = g.to_polycollection(periodic_elements=per, return_indices=True)
         if len(idx) < 2 or len(set(int(x) for x in idx)) < 2:
             return res, None
         if isinstance(idx, list):
@@ -1407,7 +1410,7 @@ def run_geo_indices(ck, c):
     if res["changed"]:
         ck.fail("export_edit_changes_grid", c, {"export": "to_polycollection:indices", "returns_cached_object": bool(res["same_object"])},
                 detail="after the caller reordered the returned index table, the Grid reports another table / attaches data to other polygons")
-    return res, ("export_geo", sx(["@V", [["B", 1, 2, 3]], 0]))
+    return res, ("export_geo", sx([1, [["B", 1, 2, 3]], 0]))      # handed out as a copy (both return sites)
 
 
 def run_geo(ck, c):
@@ -1630,8 +1633,9 @@ def gen_cases(ck):
     for periodic in ("split", "exclude"):
         for _ in range(2 if quick else 20):
             m = small_mesh(rng)
-            cases.append({"kind": "geo", "export": "to_polycollection_indices", "engine": None, "edit": "reorder",
-                          "periodic": periodic, "mesh": mesh_case(m)})
+            for call_no in (1, 2):
+                cases.append({"kind": "geo", "export": "to_polycollection_indices", "engine": None, "edit": "reorder",
+                              "periodic": periodic, "call_no": call_no, "mesh": mesh_case(m)})
     # --- geometry exports
     for export, engines in (("to_geodataframe", ["spatialpandas", "geopandas"]), ("to_linecollection", [None]),
                             ("to_polycollection", [None])):
